@@ -24,7 +24,7 @@ use rustix::fs::CWD;
 use rustix::{fs::{copy_file_range, seek, mknodat, FileType, Mode, RawMode, SeekFrom}, io::Errno};
 
 use crate::Extent;
-use crate::errors::Result;
+use crate::errors::{Error, Result};
 use crate::common::{copy_bytes_uspace, copy_range_uspace};
 
 // Wrapper for copy_file_range(2) that checks for non-fatal errors due
@@ -227,6 +227,10 @@ pub fn copy_sparse(infd: &File, outfd: &File) -> Result<u64> {
     let mut pos = 0;
     while pos < len {
         let (next_data, next_hole) = next_sparse_segments(infd, outfd, pos)?;
+        if next_hole <= pos || next_hole < next_data {
+            // The source shrank while being copied; do not spin.
+            return Err(Error::InvalidSource("Source file ended prematurely."));
+        }
 
         let _written = copy_file_bytes(infd, outfd, next_hole - next_data)?;
         pos = next_hole;
